@@ -34,7 +34,7 @@ LEVEL_TEXT = ('Each configuration is built with the real coordinate API and ever
               'universe; hash-seed independence is decided on a finite seed set in child interpreters.')
 LEVEL_NOTE = ('Trusted: mc/gf2.py. Not covered: sizes above the bound, user codes with more than 3 qubits / 2 '
               'stabilizers, hash seeds outside the enumerated set.')
-RULE = ('A1: every (class, size, deformation) in the C01 domain (incl. the thin lattices with a side of length 1 and Color666PlanarCode with L_y != L_x); A2: every pair of non-identity Pauli supports on '
+RULE = ('A1: every (class, size, deformation) in the C01 domain (incl. the thin lattices with a side of length 1, Color666PlanarCode with L_y != L_x, and every other size tuple with sides <= 3 that a constructor accepts); A2: every pair of non-identity Pauli supports on '
         'n=2 (225) and n=3 (3969 in thorough; quick: all 63 single stabilizers and a complete 63x63 sweep sharded '
         'over fewer coordinate shapes) for each coordinate shape; A3: one child interpreter per PYTHONHASHSEED. '
         'distinct non-trivial = distinct configurations with at least one non-empty generator; A1 also on used '
@@ -63,7 +63,10 @@ def cases(tier, seed):
     # L_y != L_x (L_y is ignored): valid codes on the reference tree, outside the DESIGN §3 table
     out += [dict(c, part='A1') for c in F.thin_configs(b['max_n'], l_max=4, deformed=True)]
     out += [dict(c, part='A1') for c in F.ignored_parameter_configs(b['max_n'], l_max=4)]
-    lib = [c for c in out if min(c['size']) > 1 and not (c['cls'] == 'Color666PlanarCode' and c['size'][0] != c['size'][1])]
+    # sizes outside every family that the constructors nevertheless accept (sides <= 3): the structural
+    # clauses apply to whatever object the library hands out; a refused size is skipped
+    out += [dict(c, part='A1') for c in F.accepted_outside_family(3)]
+    lib = [c for c in out if F.in_family(c['cls'], c['size']) and min(c['size']) > 1 and not (c['cls'] == 'Color666PlanarCode' and c['size'][0] != c['size'][1])]
     out += [{'part': 'session', 'cfgs': seq} for seq in session.interleave_by_size(lib)]
     out += [{'part': 'session', 'cfgs': seq} for seq in session.across_classes(lib)]
     for sh in range(b['user_shapes']):
